@@ -89,12 +89,26 @@ def one_run(b, d, opts, pert, epoch=True):
     elif kind == "heap":
         preload = preload_path()
         env["VF_HEAP_SEED"] = str(pert["seed"])
+    elif kind == "mmap0":
+        # every allocation served by mmap: glibc hands these addresses out top-down, i.e. in reverse order
+        env["MALLOC_MMAP_THRESHOLD_"] = "0"
+        env["GLIBC_TUNABLES"] = "glibc.malloc.mmap_threshold=0"
+    elif kind == "pwd":
+        # $PWD is an alias of the working directory through a symbolic link (what a shell leaves behind after
+        # `cd link`), or stale; the outputs are named relative to the working directory
+        if pert["pwd"] == "alias":
+            link = d.rstrip("/") + "_lnk"
+            if not os.path.islink(link):
+                os.symlink(d, link)
+            env["PWD"] = link
+        else:
+            env["PWD"] = pert["pwd"]
     elif kind == "time":
         preload = preload_path("vf_faketime")
         env["VF_FAKE_TIME"] = str(pert["t"])
     incs = ["-I" + d, "-S" + os.path.join(d, "sys")]
     cmd = prefix + [b.interrogate] + tools.CPP_DEFS + ["-S" + b.parser_inc] + incs + \
-        ["-oc", os.path.join(d, "liba_igate.cxx"), "-od", os.path.join(d, "liba.in"), "-oh", os.path.join(d, "liba.txt"),
+        ["-oc", "liba_igate.cxx", "-od", "liba.in", "-oh", "liba.txt",      # relative: resolved against the cwd (= d)
          "-module", "mod", "-library", "liba"] + opts + [os.path.join(d, "liba.h")]
     r = core.run(cmd, timeout=120, env=env, cwd=d, preload=preload)
     out = {"_rc": r.rc, "_how": r.how(), "_err": r.err[-500:]}
@@ -272,6 +286,8 @@ def main(chk):
                      dict(kind="tz", tz=rng.choice(["Asia/Tokyo", "America/New_York", "UTC+5"])),
                      dict(kind="time", t=rng.randrange(10 ** 9, 2 * 10 ** 9))]
             perts += [dict(kind="heap", seed=rng.randrange(1, 1 << 30)) for _ in range(nheap)]
+            perts += [dict(kind="mmap0"), dict(kind="pwd", pwd="alias"),
+                      dict(kind="pwd", pwd=rng.choice(["/", "/nonexistent/dir"]))]
             t1 = rng.randrange(10 ** 9, 2 * 10 ** 9)
             cases.append(dict(id=cid, libseed=libseed, backend=be, perts=perts, size=0.8,
                               noepoch=[t1, t1 + rng.randrange(1, 10 ** 6)], epochs=[0, rng.choice([1, 86400, 1700000000])]))
